@@ -446,9 +446,12 @@ func c08Scan(c *Ctx, r *Report, rule string) {
 					continue
 				}
 				var metaLoad ssa.Value
+				var metaBase ssa.Value
 				for _, op := range []ssa.Value{bo.X, bo.Y} {
-					if _, o, f, ok := loadOfField(op); ok && f == "meta" && o == "Object" {
-						metaLoad = op
+					if b0, o, f, ok := loadOfField(op); ok && f == "meta" && o == "Object" {
+						metaLoad, metaBase = op, b0
+					} else if b0, o, f, ok := getterLoad(op); ok && f == "meta" && o == "Object" {
+						metaLoad, metaBase = op, b0 // read through a (locked) accessor
 					}
 				}
 				if metaLoad == nil {
@@ -474,8 +477,7 @@ func c08Scan(c *Ctx, r *Report, rule string) {
 				}
 				if !overTable {
 					// the slice may be loaded before the loop
-					base, _, _, _ := loadOfField(metaLoad)
-					overTable = derivedFromTypeTable(base)
+					overTable = derivedFromTypeTable(metaBase)
 				}
 				if !overTable {
 					continue
